@@ -22,6 +22,7 @@ import (
 
 	NoKV "github.com/feichai0017/NoKV"
 	"github.com/feichai0017/NoKV/utils"
+	"github.com/feichai0017/NoKV/vfs"
 	"verif/harness/internal/core"
 	"verif/harness/internal/dbx"
 	"verif/harness/internal/hist"
@@ -42,6 +43,10 @@ type caseCfg struct {
 	// history runs (LSM.Rotate, no waiting), so several sealed memtables holding the same keys
 	// are in flight at once.
 	Rotator bool `json:"rotator"`
+	// WalFaultAt > 0: from the WalFaultAt-th write/sync of the memtable WAL after Open on, every
+	// such operation fails with an injected I/O error; the history then ends with reads on the
+	// live database (no Close race, no reopen).
+	WalFaultAt int `json:"wal_fault_at,omitempty"`
 }
 
 var keyPool = []string{"ka", "kb", "kc", "kd"}
@@ -88,6 +93,12 @@ func draw(c *core.Case) caseCfg {
 	cfg.TailWriters = 2 + rng.Intn(3)
 	cfg.CloseAfterOps = rng.Intn(8)
 	cfg.Rotator = c.Idx%3 == 1
+	if c.Idx%12 == 7 {
+		cfg.WalFaultAt = 2 + rng.Intn(24)
+		cfg.DB.SyncWrites = true
+		cfg.DB.MemTableSize = 4 << 20
+		cfg.CloseRace, cfg.Rotator = false, false
+	}
 	return cfg
 }
 
@@ -187,15 +198,33 @@ func panicClass(e string) string {
 	return e
 }
 
+var errInjectedIO = errors.New("injected: input/output error")
+
 func run(c *core.Case) {
 	cfg := draw(c)
 	dir := c.TempDir()
-	db, err := dbx.Open(cfg.options(dir))
+	o := cfg.options(dir)
+	var walOps, walFailed atomic.Int64
+	var armed atomic.Bool
+	if cfg.WalFaultAt > 0 {
+		o.FS = vfs.NewFaultFS(vfs.OSFS{}, func(op vfs.Op, path string) error {
+			if !armed.Load() || !strings.HasSuffix(path, ".wal") || (op != vfs.OpFileWrite && op != vfs.OpFileSync) {
+				return nil
+			}
+			if walOps.Add(1) >= int64(cfg.WalFaultAt) {
+				walFailed.Add(1)
+				return errInjectedIO
+			}
+			return nil
+		})
+	}
+	db, err := dbx.Open(o)
 	if err != nil {
 		c.Violation("C34|open-failed|fresh", err.Error(), cfg)
 		return
 	}
 	db.VerifLSM().VerifSetCompactionPaused(true)
+	armed.Store(true)
 	rec := hist.NewRegRecorder()
 	sizes := []int{12, 40, 200, 700, 1500}
 	var wg sync.WaitGroup
@@ -271,13 +300,32 @@ func run(c *core.Case) {
 	close(rotStop)
 	rotWG.Wait()
 
-	// Tail: writers keep writing while Close runs (only writes race Close; the
-	// property names "closed" as a write error, reads on a closing DB are not
-	// part of the statement).
 	closeErr := error(nil)
 	var closeCallAt atomic.Int64
 	var closeCalled atomic.Bool
-	if cfg.CloseRace {
+	layoutBefore := ""
+	if cfg.WalFaultAt > 0 {
+		// I/O-fault flavour: what was acknowledged must be readable on the live database,
+		// what was refused with the I/O error has an unknown outcome.
+		armed.Store(false)
+		fin := rec.Client()
+		for _, k := range cfg.Keys {
+			doGet(db, fin, k)
+		}
+		func() {
+			defer func() { _ = recover() }()
+			_ = db.Close()
+		}()
+		layoutBefore = "live-after-io-fault"
+		c.Count("cases_with_wal_io_fault", 1)
+		c.Count("wal_ops_failed", int(walFailed.Load()))
+	}
+	// Tail: writers keep writing while Close runs (only writes race Close; the
+	// property names "closed" as a write error, reads on a closing DB are not
+	// part of the statement).
+	if cfg.WalFaultAt > 0 {
+		// already closed above
+	} else if cfg.CloseRace {
 		var tailOps atomic.Int64
 		var twg sync.WaitGroup
 		for w := 0; w < cfg.TailWriters; w++ {
@@ -316,19 +364,20 @@ func run(c *core.Case) {
 	}
 
 	// Reopen and read every key once: rejected writes must not have surfaced.
-	layoutBefore := ""
-	db2, err := dbx.Open(cfg.options(dir))
-	if err != nil {
-		c.Violation("C34|reopen-failed", err.Error(), map[string]any{"config": cfg})
-		return
+	if cfg.WalFaultAt == 0 {
+		db2, err := dbx.Open(cfg.options(dir))
+		if err != nil {
+			c.Violation("C34|reopen-failed", err.Error(), map[string]any{"config": cfg})
+			return
+		}
+		db2.VerifLSM().VerifSetCompactionPaused(true)
+		layoutBefore = dbx.LayoutShape(db2)
+		fin := rec.Client()
+		for _, k := range cfg.Keys {
+			doGet(db2, fin, k)
+		}
+		_ = db2.Close()
 	}
-	db2.VerifLSM().VerifSetCompactionPaused(true)
-	layoutBefore = dbx.LayoutShape(db2)
-	fin := rec.Client()
-	for _, k := range cfg.Keys {
-		doGet(db2, fin, k)
-	}
-	_ = db2.Close()
 
 	ops := rec.Ops()
 	res := hist.CheckRegister(ops, 30*time.Second)
@@ -409,7 +458,7 @@ func init() {
 		Level: "exploration",
 		Rule: "case = one short concurrent history on a fresh DB: 3-8 goroutines x 15-40 seeded ops (45% Set of a unique value, 10% Del, 45% Get) on 1-4 keys, option set drawn per case " +
 			"(skiplist/ART, memtable 8KiB-1MiB so rotations+flushes happen inside the history, value sizes 12B-1.5KiB inline or in the value log, WriteHotKeyLimit 6/16/40 so hot-key throttling rejects writes, " +
-			"MaxBatchSize 600 so too-large rejects writes, WriteBatchWait 0/200us; in every third case a maintenance goroutine seals the active memtable every 150us so that several sealed memtables with the same keys are in flight); in half of the cases 2-4 writers keep writing while Close runs; then reopen and read every key. " +
+			"MaxBatchSize 600 so too-large rejects writes, WriteBatchWait 0/200us; in every third case a maintenance goroutine seals the active memtable every 150us so that several sealed memtables with the same keys are in flight); in half of the cases 2-4 writers keep writing while Close runs; then reopen and read every key. One case in twelve runs on a vfs.FaultFS whose memtable-WAL writes/syncs fail from the k-th (2..25) on: it ends with reads on the live database instead (an acknowledged write must be there; a write refused with the I/O error has an unknown outcome). " +
 			"Every call is stamped before/after from one monotonic clock; each key's history is checked with porcupine against a register model (failed writes = no-ops, unknown outcomes open-ended). " +
 			"A case is non-trivial iff the timestamps show >=1 read overlapping a write and >=1 write overlapping a write on the same key; distinct = distinct sequences of read results",
 		Assumptions: []string{
